@@ -7,6 +7,7 @@ import (
 	"flag"
 	"fmt"
 	"os"
+	"regexp"
 	"strings"
 	"time"
 
@@ -134,11 +135,25 @@ func workerMain(args []string) {
 	sub := fs.String("sub", "", "sub-batch selector passed to the profile")
 	knownPath := fs.String("known", "", "file listing known findings (counted, not reported)")
 	fs.Parse(args)
-	type knownT struct{ Signature, Input string }
+	type knownT struct {
+		Signature      string `json:"signature"`
+		Input          string `json:"input"`
+		SignatureRegex string `json:"signature_regex"`
+		InputRegex     string `json:"input_regex"`
+		sigRe, inRe    *regexp.Regexp
+	}
 	var known []knownT
 	if *knownPath != "" {
 		if b, err := os.ReadFile(*knownPath); err == nil {
 			json.Unmarshal(b, &known)
+		}
+		for i := range known {
+			if known[i].SignatureRegex != "" {
+				known[i].sigRe = regexp.MustCompile(known[i].SignatureRegex)
+			}
+			if known[i].InputRegex != "" {
+				known[i].inRe = regexp.MustCompile(known[i].InputRegex)
+			}
 		}
 	}
 	p := profiles[*prop]
@@ -171,8 +186,10 @@ func workerMain(args []string) {
 			v.Sub = subBatch
 			isKnown := false
 			for _, k := range known {
-				if k.Signature == v.Signature && (k.Input == "" || k.Input == v.Input) {
-					agg.Known[k.Signature+"|"+k.Input]++
+				sigOK := k.Signature == v.Signature || (k.sigRe != nil && k.sigRe.MatchString(v.Signature))
+				inOK := (k.Input == "" && k.inRe == nil) || (k.Input != "" && k.Input == v.Input) || (k.inRe != nil && k.inRe.MatchString(v.Input))
+				if sigOK && inOK {
+					agg.Known[k.Signature+k.SignatureRegex+"|"+k.Input+k.InputRegex]++
 					isKnown = true
 					break
 				}
